@@ -271,6 +271,116 @@ Facts31(o) ==
    keyidx |-> IndexOf(ApplyHist(o.keys0, o.hist), Head(o.keys0)), changed |-> o.changed,
    demand |-> Demand31(o)]
 
+-----------------------------------------------------------------------------
+(* C27 - authentication.  An observation of harness/cmd/c27 carries the scenario names, the
+   standard library's verdict on the concrete PKI (std: does the server chain verify to the
+   client's roots for the client's name at the configured time, does the server hold the leaf
+   key; same for the client chain), the wire corruption that fired, and the outcome.
+
+     "a client completes only if the server's chain verifies ... and the server proves possession"
+     "a server requiring client certificates completes only with a client that proves possession
+      (and, when verification is requested, whose chain verifies)"                              *)
+ServerWire == {"CorruptSKXSig", "CorruptSKXParams", "CorruptServerFinished"}
+ExpectedStd(scen) ==
+  [chain |-> scen \notin {"UntrustedRoot", "Expired", "NotYetValid", "WrongName", "BadLeafSig"},
+   key   |-> scen # "WrongKey"]
+ExpectedCStd(cscen) ==
+  [sent  |-> cscen \notin {"", "NoClientCert"},
+   chain |-> cscen \in {"ClientTrusted", "ClientWrongKey", "CorruptClientCV"},
+   key   |-> cscen # "ClientWrongKey"]
+
+AuthDemand(o) ==
+  LET std == o.std
+      serverBad == ~std.server_chain_ok \/ ~std.server_key_ok \/ o.fired \in ServerWire
+      sent == std.client_sent /\ o.auth >= 1           \* a certificate is only sent when requested
+      popBad == sent /\ (~std.client_key_ok \/ o.fired = "CorruptClientCV")
+      chainBad == sent /\ ~std.client_chain_ok
+      serverMustFail == \/ o.auth \in {2, 4} /\ (~sent \/ popBad)          \* RequireAny / RequireAndVerify
+                        \/ o.auth \in {3, 4} /\ chainBad                    \* verification requested
+                        \/ o.fired = "CorruptClientFinished"
+  IN [clientMustFail |-> serverBad,
+      serverMustFail |-> serverMustFail,
+      \* nothing is wrong (for the configured mode): the handshake has to complete (C24's clause,
+      \* kept here so that "only if" cannot hold vacuously).  A wrong client key under
+      \* RequestClientCert / VerifyClientCertIfGiven is left open.
+      mustComplete   |-> ~serverBad /\ ~serverMustFail /\ ~popBad]
+
+Judge27(o) ==
+  LET b == o.obs  d == AuthDemand(o)  es == ExpectedStd(o.scen)  ec == ExpectedCStd(o.cscen) IN
+  IF b.cpanic \/ b.spanic \/ b.chang \/ b.shang THEN "panic-or-hang"
+  ELSE IF o.std.server_chain_ok # es.chain \/ o.std.server_key_ok # es.key \/ o.std.client_sent # ec.sent
+          \/ (ec.sent /\ (o.std.client_chain_ok # ec.chain \/ o.std.client_key_ok # ec.key))
+       THEN "harness-pki-mismatch"
+  ELSE IF d.clientMustFail /\ b.cdone THEN "client-completed-with-unauthenticated-server"
+  ELSE IF d.serverMustFail /\ b.sdone THEN "server-completed-with-unauthenticated-client"
+  ELSE IF d.mustComplete /\ ~(b.cdone /\ b.sdone /\ b.dataok /\ b.ekmeq) THEN "good-scenario-failed"
+  ELSE "ok"
+
+Facts27(o) ==
+  [kind |-> Judge27(o), vers |-> o.vers, scen |-> o.scen, cscen |-> o.cscen, auth |-> o.auth,
+   key |-> o.key, kx |-> IF o.suite = 0 THEN "T13" ELSE Tbl(o.suite).kx, fired |-> o.fired]
+
+-----------------------------------------------------------------------------
+(* C28 - the client handshake log.  harness/cmd/c28 projects the captured transcript (raw
+   handshake messages, independent parser) to a flat record `wire` and GetHandshakeLog() to a
+   flat record `log` with the same keys (only populated parts appear in `log`).
+
+     "every populated part of the handshake log ... equals the corresponding field of the
+      messages sent and received on the wire and of the secrets the connection actually used"
+   =  every key of `log` is a key of `wire` with the same value (byte strings are compared as
+      length + content, so "complete" is part of equality);
+     "logged signature and hash algorithms are those named on the wire"
+   =  the logged names are among the names of the wire code point (SchemeNames: the TLS 1.2
+      SignatureAndHashAlgorithm reading, or for the TLS 1.3 style code points the scheme's own
+      signature / hash, or the literal byte names - all allowed).                               *)
+LegacyHashName(h) == CASE h = 0 -> "none" [] h = 1 -> "md5" [] h = 2 -> "sha1" [] h = 3 -> "sha224" [] h = 4 -> "sha256"
+                       [] h = 5 -> "sha384" [] h = 6 -> "sha512" [] h = 8 -> "intrinsic" [] OTHER -> "unknown"
+SchemeNames(s) ==
+  LET h == s \div 256  g == s % 256 IN
+  IF h = 8 THEN CASE g \in {4, 9}  -> [sig |-> {"rsa", "rsapss"}, hash |-> {"sha256", "intrinsic"}]
+                  [] g \in {5, 10} -> [sig |-> {"rsa", "rsapss"}, hash |-> {"sha384", "intrinsic"}]
+                  [] g \in {6, 11} -> [sig |-> {"rsa", "rsapss"}, hash |-> {"sha512", "intrinsic"}]
+                  [] g = 7        -> [sig |-> {"ed25519"}, hash |-> {"intrinsic", "none"}]
+                  [] OTHER        -> [sig |-> {}, hash |-> {}]
+  ELSE [sig  |-> CASE g = 1 -> {"rsa", "pkcs1v15"} [] g = 2 -> {"dsa"} [] g = 3 -> {"ecdsa"} [] OTHER -> {},
+        hash |-> {LegacyHashName(h)}]
+\* the name a crypto.Hash value (MD5=2 SHA1=3 SHA224=4 SHA256=5 SHA384=6 SHA512=7) gets when it is
+\* mistaken for a TLS HashAlgorithm id - only used to classify a rejection for the known findings
+CryptoHashConfusion(s) ==
+  LET h == s \div 256  g == s % 256
+      real == IF h = 8 THEN (CASE g \in {4, 9} -> 4 [] g \in {5, 10} -> 5 [] g \in {6, 11} -> 6 [] OTHER -> 0) ELSE h
+  IN CASE real = 2 -> "sha224" [] real = 4 -> "sha384" [] real = 5 -> "sha512" [] real = 6 -> "unknown.7" [] OTHER -> "?"
+
+SpecialLog28 == {"ch_sigalg_names", "skx_sig_name", "skx_hash_name"}
+SigalgBad(o) == IF "ch_sigalg_names" \notin DOMAIN o.log \/ "ch_sigalgs" \notin DOMAIN o.wire THEN {}
+                ELSE IF Len(o.log.ch_sigalg_names) # Len(o.wire.ch_sigalgs) THEN {0}
+                ELSE {i \in 1..Len(o.wire.ch_sigalgs) :
+                        LET n == SchemeNames(o.wire.ch_sigalgs[i]) IN
+                        o.log.ch_sigalg_names[i][1] \notin n.sig \/ o.log.ch_sigalg_names[i][2] \notin n.hash}
+BadFields28(o) ==
+  {f \in DOMAIN o.log \ SpecialLog28 : f \notin DOMAIN o.wire \/ o.log[f] # o.wire[f]}
+  \cup (IF SigalgBad(o) # {} THEN {"ch_sigalg_names"} ELSE {})
+  \cup (IF "skx_sig_name" \in DOMAIN o.log
+        THEN (IF "skx_sig_scheme" \notin DOMAIN o.wire THEN {"skx_sig_name"}
+              ELSE (IF o.log.skx_sig_name \notin SchemeNames(o.wire.skx_sig_scheme).sig THEN {"skx_sig_name"} ELSE {})
+                   \cup (IF o.log.skx_hash_name \notin SchemeNames(o.wire.skx_sig_scheme).hash THEN {"skx_hash_name"} ELSE {}))
+        ELSE {})
+  \cup (IF ~o.json_ok THEN {"json"} ELSE {})
+
+Cause28(o, f) ==
+  CASE f = "skx_hash_name" /\ "skx_sig_scheme" \in DOMAIN o.wire /\ o.log.skx_hash_name = CryptoHashConfusion(o.wire.skx_sig_scheme)
+         -> "cryptohash-as-tls-hash-id"
+    [] f = "ch_sigalg_names" /\ 0 \notin SigalgBad(o)
+         /\ \A i \in SigalgBad(o) : o.wire.ch_sigalgs[i] = 2055 /\ o.log.ch_sigalg_names[i] = <<"ed25519", "sha256">>
+         -> "ed25519-logged-with-sha256"
+    [] f = "ch_ticket" /\ "ch_ticket" \in DOMAIN o.wire /\ o.log.ch_ticket = "0:" /\ o.log.ch_ticket_len = o.wire.ch_ticket_len
+         -> "empty-value-with-length"
+    [] OTHER -> "other"
+
+Problems28(o) ==
+  { [kind |-> "log-mismatch", field |-> f, cause |-> Cause28(o, f), vers |-> o.vers, resumed |-> o.resumed,
+     second |-> o.second, done |-> o.done] : f \in BadFields28(o) }
+
 (* Judge of one observed connection of an honest or downgrade-tampered run (C24).
    o = [c, s, down, second, obs]; obs as logged by harness/lib/tlsh.Observe.
    Returns "ok" or the kind of violation. *)
